@@ -124,6 +124,9 @@ func c19(c *Ctx) {
 				continue
 			}
 			nRead++
+			if !determined[f] && !neutral[f.Name()] && sinkOnlyField(c, f, wm) {
+				continue // a counter: written with Add/Store on the rendering path, its value never read there
+			}
 			if !determined[f] && !neutral[f.Name()] {
 				ok, why = false, "Conn."+f.Name()+" is read on the rendering path of WriteMessage but is neither part of prepareKey nor in the reviewed neutral list: a cached frame would not reflect it"
 			}
@@ -462,4 +465,59 @@ func pmSnapshotIsTail(c *Ctx, rule string) bool {
 		}
 	})
 	return tail
+}
+
+// sinkOnlyField: within the functions reachable from root, every use of the
+// field is a sync/atomic Add or Store call whose result is discarded: its value
+// cannot influence anything computed on that path (a statistics counter).
+func sinkOnlyField(c *Ctx, f *types.Var, root *ssa.Function) bool {
+	if n, ok := f.Type().(*types.Named); !ok || n.Obj().Pkg() == nil || n.Obj().Pkg().Path() != "sync/atomic" {
+		return false
+	}
+	reach := map[*ssa.Function]bool{}
+	var visit func(g *ssa.Function)
+	visit = func(g *ssa.Function) {
+		if g == nil || reach[g] || !c.P.InPkg(g) {
+			return
+		}
+		reach[g] = true
+		for callee := range c.P.Mod(g).Callees {
+			visit(callee)
+		}
+		for _, a := range g.AnonFuncs {
+			visit(a)
+		}
+	}
+	visit(root)
+	uses := 0
+	for g := range reach {
+		for _, b := range g.Blocks {
+			for _, in := range b.Instrs {
+				fa, ok := in.(*ssa.FieldAddr)
+				if !ok || fieldOf(fa) != f {
+					continue
+				}
+				for _, ref := range *fa.Referrers() {
+					call, isCall := ref.(*ssa.Call)
+					if !isCall {
+						return false
+					}
+					callee := call.Call.StaticCallee()
+					if callee == nil || callee.Pkg == nil || callee.Pkg.Pkg.Path() != "sync/atomic" {
+						return false
+					}
+					switch callee.Name() {
+					case "Add", "Store":
+						if len(*call.Referrers()) != 0 {
+							return false
+						}
+					default:
+						return false
+					}
+					uses++
+				}
+			}
+		}
+	}
+	return uses > 0
 }
